@@ -39,8 +39,16 @@ class Refs:
         # forking mode: decide the constructor of an input node before looking at it, so that the
         # reference follows one shape per path instead of expanding every alternative
         self.concretize = concretize
+        self.work_left = None    # optional budget on reference work (node visits)
+
+    def work(self):
+        if self.work_left is not None:
+            self.work_left -= 1
+            if self.work_left < 0:
+                raise RefUnknown("reference out of fuel")
 
     def views(self, t):
+        self.work()
         if self.concretize is not None:
             from .inputs import InputTerm
             if isinstance(t, InputTerm):
@@ -86,8 +94,17 @@ class Refs:
             f = adt.fields
             if ct == "Variable":
                 idx = f[1]
-                d = z_or(idx < c, idx + a >= c)
-                r = T.var(f[0], z_ite(idx >= c, idx + a, idx), sr)
+                if self.concretize is not None:
+                    # forking mode: decide the comparison instead of building an ite
+                    ge = idx >= c
+                    if (ge if isinstance(ge, bool) else ex.branch(ge)):
+                        d = idx + a >= c
+                        r = T.var(f[0], idx + a, sr)
+                    else:
+                        d, r = True, T.var(f[0], idx, sr)
+                else:
+                    d = z_or(idx < c, idx + a >= c)
+                    r = T.var(f[0], z_ite(idx >= c, idx + a, idx), sr)
             elif ct in ("Lambda", "Pi"):
                 d1, t1 = self.shift(f[2], c, a)
                 d2, t2 = self.shift(f[3], c + 1, a)
@@ -108,8 +125,16 @@ class Refs:
                 # an unsolved hole with shift s stands for a term of the scope s levels up: it has no
                 # free variable below s, so it moves like a variable of index s
                 hs = f[1]
-                d = z_or(hs < c, hs + a >= c)
-                r = T.unifier(f[0], z_ite(hs >= c, hs + a, hs), sr)
+                if self.concretize is not None:
+                    ge = hs >= c
+                    if (ge if isinstance(ge, bool) else ex.branch(ge)):
+                        d = hs + a >= c
+                        r = T.unifier(f[0], hs + a, sr)
+                    else:
+                        d, r = True, T.unifier(f[0], hs, sr)
+                else:
+                    d = z_or(hs < c, hs + a >= c)
+                    r = T.unifier(f[0], z_ite(hs >= c, hs + a, hs), sr)
             elif ARITY[ct] == 0:
                 d, r = True, t
             else:
@@ -210,9 +235,17 @@ class Refs:
             f = adt.fields
             if ct == "Variable":
                 idx = f[1]
-                _, ushift = self.shift(u, 0, s)
-                keep = T.var(f[0], z_ite(idx > x, idx - 1, idx), sr)
-                r = merge([(z_eq(idx, x), ushift), (z_not(z_eq(idx, x)), keep)])
+                if self.concretize is not None:
+                    e = z_eq(idx, x)
+                    if (e if isinstance(e, bool) else ex.branch(e)):
+                        _, r = self.shift(u, 0, s)
+                    else:
+                        gt = idx > x
+                        r = T.var(f[0], idx - 1 if (gt if isinstance(gt, bool) else ex.branch(gt)) else idx, sr)
+                else:
+                    _, ushift = self.shift(u, 0, s)
+                    keep = T.var(f[0], z_ite(idx > x, idx - 1, idx), sr)
+                    r = merge([(z_eq(idx, x), ushift), (z_not(z_eq(idx, x)), keep)])
             elif ct in ("Lambda", "Pi"):
                 r = T.mk(ct, [f[0], f[1], self.subst(f[2], x, u, s), self.subst(f[3], x + 1, u, s + 1)], sr)
             elif ct.startswith("Let"):
